@@ -175,7 +175,7 @@ func c10Features(ev []xmodel.Event) (depth int, override, surplus, perr bool) {
 func TestC10(t *testing.T) {
 	runWitnesses(t, "C10")
 	runC10Stack(t)
-	runProp(t, "stream", 20000, 1000000, func(t *rapid.T) {
+	runProp(t, "stream", 160000, 1000000, func(t *rapid.T) {
 		c := &c10Case{Events: genStream(t)}
 		depth, override, surplus, perr := c10Features(c.Events)
 		st.Eval(1)
